@@ -471,7 +471,8 @@ pub fn run_schedule<Sc: Scenario>(sc: &Sc, prefix: &[usize], horizon: usize) -> 
             x.steps += 1;
             x.trace.push(info.label.clone());
             sc.after_step(&mut s, &info, &mut x);
-            let fp: Vec<String> = ctl.snapshot().iter().map(|p| format!("{}@{}:{:?}", p.0, p.3, p.1)).collect();
+            let mut fp: Vec<String> = ctl.snapshot().iter().map(|p| format!("{}@{}:{:?}", p.0, p.3, p.1)).collect();
+            fp.sort(); // registration order of the participants is not deterministic
             x.fingerprints.insert(format!("{}|{}", fp.join(","), x.trace.len()));
             current = Some(actor);
         }
@@ -615,5 +616,13 @@ pub fn explore<Sc: Scenario>(sc: &Sc, max_bound: usize, horizon: usize, budget_s
         let _ = found;
     }
     st.states = all_fp.len() as u64;
+    if let Ok(d) = std::env::var("VMC_DUMP_FP") {
+        use std::io::Write;
+        if let Ok(mut f) = std::fs::OpenOptions::new().create(true).append(true).open(d) {
+            for x in &all_fp {
+                let _ = writeln!(f, "{} {x}", sc.name());
+            }
+        }
+    }
     st
 }
